@@ -180,7 +180,8 @@ def run_coq_files(workdir, files, timeout=600):
     while pending or running:
         while pending and len(running) < NCPU:
             n = pending.pop(0)
-            p = subprocess.Popen(["timeout", str(timeout), "coqc", "-Q", COQ, "DV", "-w", "none", n],
+            p = subprocess.Popen(["bash", "-c", f"ulimit -s unlimited 2>/dev/null || ulimit -s 1000000; "
+                                  f"exec timeout {timeout} coqc -Q {COQ} DV -w none {n}"],
                                  cwd=workdir, stdout=subprocess.PIPE, stderr=subprocess.STDOUT, text=True)
             running.append((n, p))
         n, p = running.pop(0)
